@@ -173,6 +173,19 @@ func init() {
 		}})
 }
 
+func init() {
+	reg(&PropSpec{ID: "C15", Title: "Client and server exchange frames intact (mechanisms only)", DesignRef: "DESIGN.md §4 C15",
+		Groups: []Group{
+			{Funcs: `^client\.newCql(Client|Server)Connection$|^\(\*client\.Cql(Client|Server)Connection\)\.(writeSegment|maybeSwitchToModernLayout)$|^\(\*client\.CqlClientConnection\)\.(addMultiSegmentPayload|readFrame)$`,
+				OnlyCt: true, AbstractConc: true, Classes: []string{"post", "pre", "nil", "index", "alloc", "typeassert", "frame", "cover"}},
+		},
+		Assume: []string{
+			"MECHANISM LEVEL ONLY: sockets, the two loops per connection, handshake sequencing, concurrent senders and an independent peer are outside what a per-call contract states; go statements in the constructors are ignored (the goroutines they start are not modelled), channels are opaque",
+			"ASSUMED about frame codecs used through the frame.Codec / frame.RawCodec interfaces: DecodeFrame / DecodeHeader return non-nil results on success; zerolog calls have no effect; context.WithCancel returns non-nil values",
+			"the server-side read path (readFrame adopting STARTUP's compression, server addMultiSegmentPayload) is not under proof",
+		}})
+}
+
 // Select returns the functions (keys) of a property with their class filters.
 func (p *PropSpec) Select(w *World) map[string]*Group {
 	out := map[string]*Group{}
